@@ -57,7 +57,7 @@ def run(chk):
             want = "open=err"
         else:
             j = int(ph[4:])                       # failure during the j-th Next
-            f = dict(p.split("=", 1) for p in got.split(" "))
+            f = dict(p.split("=", 1) for p in got.split(" ") if "=" in p)      # "crash"/"panic"/"oversize:.." carry no fields
             recs = [] if f.get("recs", "-") == "-" else f["recs"].split(";")
             ok = (f.get("open") == "ok" and f.get("err") == "err" and int(f.get("nexts", -1)) == j - 1 and recs == want_recs[:j - 1])
             want = "open=ok nexts=%d err=err and the first %d rows correct" % (j - 1, j - 1)
